@@ -615,6 +615,29 @@ def install(reg):
         ex.list_store(st, l, n + 1, z3.Lambda([j], z3.If(j == 0, to_term(coerce(v, l.e)), z3.Select(arr, j - 1))))
         return [(st, VNone())]
 
+    @ext('list.remove')
+    def _lremove(ex, st, args, kw, node):
+        """list.remove(x): deletes the FIRST item equal to x; ValueError if there is none"""
+        l, v = args
+        n = ex.list_len(st, l)
+        arr = ex.list_arr(st, l)
+        vt = to_term(coerce(v, l.e))
+        i = z3.Int(fresh_name('ri'))
+        present = z3.Exists([i], z3.And(0 <= i, i < n, z3.Select(arr, i) == vt))
+        ok, bad = ex.guard(st, present, 'builtins:ValueError')
+        out = []
+        if ok is not None:
+            k = z3.Int(fresh_name('rk'))
+            i2 = z3.Int(fresh_name('ri'))
+            ok.assume(0 <= k, k < n, z3.Select(arr, k) == vt,
+                      z3.ForAll([i2], z3.Implies(z3.And(0 <= i2, i2 < k), z3.Select(arr, i2) != vt)))
+            j = z3.Int(fresh_name('rj'))
+            ex.list_store(ok, l, n - 1, z3.Lambda([j], z3.If(j < k, z3.Select(arr, j), z3.Select(arr, j + 1))))
+            out.append((ok, VNone()))
+        if bad is not None:
+            out.append((bad, None))
+        return out
+
     @ext('builtins.getattr')
     def _getattr(ex, st, args, kw, node):
         """getattr(obj, name[, default]) for a declared optional field: an absent attribute is modelled as None"""
